@@ -1509,6 +1509,9 @@ class Interp:
             ta = e.get("targs") or []
             if isinstance(v, (tuple, list)) and ta and isinstance(ta[0], int) and ta[0] < len(v):
                 return v[ta[0]]
+            # pair-like objects (structured bindings on a map entry): first / second by position
+            if isinstance(v, Obj) and ta and ta[0] in (0, 1) and "first" in v.fields and "second" in v.fields:
+                return FieldRef(v, ("first", "second")[ta[0]])
             raise AnalysisBroken("interp: std::get on %r" % (v,))
         if bn == "std::function::operator()":
             f = self.rv(OBJ())
@@ -1869,7 +1872,13 @@ class Interp:
             return
         if k == "for":
             self.exec(s.get("init"), fr)
+            n_iter = 0
             while s.get("c") is None or self.truth(self.eval(s["c"], fr), s["c"]):
+                if s.get("c") is None:      # for (;;): an open-ended iteration like while (true)
+                    n_iter += 1
+                    bound = getattr(self.world, "loop_bound", None)
+                    if bound is not None and n_iter > bound:
+                        raise LoopBound(fr.fn.loc(s))
                 try:
                     self.exec(s.get("body"), fr)
                 except BreakEx:
